@@ -20,6 +20,7 @@ import (
 //	CLOSE_NOTIFY      alert (1,0)
 //	APP               one application-data record
 //	EMPTYHS           empty handshake record
+//	APP0              empty application-data record
 //	RAW:<hex>         raw bytes on the transport
 //
 // receive side:
@@ -104,6 +105,10 @@ func (p *Peer) Run(o *Opts, ops []string) *Outcome {
 			err = p.SendAlert(2, byte(d))
 		case op == "APP":
 			err = p.SendApp([]byte("scripted application data"))
+		case op == "APP0":
+			// an application-data record without payload (protected once the write cipher is on)
+			p.Sent = append(p.Sent, "APP0")
+			err = p.WriteRecord(ref.RecAppData, nil)
 		case op == "EMPTYHS":
 			p.Sent = append(p.Sent, "EMPTYHS")
 			err = p.WriteRecord(ref.RecHandshake, nil)
